@@ -5,12 +5,26 @@
 -/
 import EmdModel.Protocol
 import EmdModel.Cycles
+import EmdModel.Extrema
+import EmdModel.Sift
+import EmdModel.Mask
+import EmdModel.Ensemble
+import EmdModel.Options
+import EmdModel.Phase
+import EmdModel.Spectra
+import EmdModel.CycleStats
+import EmdModel.Container
+import EmdModel.Maps
+import EmdModel.Kdt
+import EmdModel.Config
+import EmdModel.Support
+import EmdModel.Logger
 
 namespace Driver
 open Protocol
 
 def handlers : List (Op → Option String) :=
-  [Cycles.handle]
+  [Cycles.handle, Extrema.handle, Sift.handle, Mask.handle, Ensemble.handle, Options.handle, Phase.handle, Spectra.handle, CycleStats.handle, Container.handle, Maps.handle, Kdt.handle, Config.handle, Support.handle, Logger.handle]
 
 def answer (line : String) : String :=
   match parseOp? line with
